@@ -88,7 +88,7 @@ func ulpClose(a, b float64) bool {
 
 // genLatencies produces the latency multiset of a workload (C11's distribution shapes).
 func genLatencies(t *simrt.Tape, n int) (lat []int64, shape string) {
-	shapes := []string{"uniform", "lognormal", "constant", "few-valued", "bimodal-gap", "sorted", "reverse-sorted", "with-zero", "late-zeros"}
+	shapes := []string{"uniform", "lognormal", "constant", "few-valued", "bimodal-gap", "sorted", "reverse-sorted", "with-zero", "late-zeros", "nearly-constant"}
 	k := t.Choose(len(shapes))
 	shape = shapes[k]
 	lat = make([]int64, n)
@@ -103,6 +103,13 @@ func genLatencies(t *simrt.Tape, n int) (lat []int64, shape string) {
 			lat[i] = base
 		case "few-valued":
 			lat[i] = base * int64(1+t.Choose(3))
+		case "nearly-constant":
+			// values within nanoseconds of each other: the mean, truncated to whole nanoseconds, equals the minimum
+			// although the samples differ
+			lat[i] = base
+			if t.Prob(1, 10) {
+				lat[i] += int64(1 + t.Choose(5))
+			}
 		case "bimodal-gap":
 			if t.Prob(1, 2) {
 				lat[i] = int64(1 + t.Choose(1000))
